@@ -113,6 +113,7 @@ type World struct {
 	violations []Violation
 
 	caseKey     string
+	caseTotal   int
 	nontrivial  bool // set by scenarios whose notion of non-trivial is not schedule based
 	RecordGates bool
 	gateLog     [256]GatePass
@@ -392,6 +393,9 @@ func (w *World) MarkNontrivial() { w.nontrivial = true }
 
 // SetCase names the point of a finite case space this run covered (reported as measured coverage of that space).
 func (w *World) SetCase(c string) { w.caseKey = c }
+
+// SetCaseTotal states the size of that case space when the scenario itself can compute it.
+func (w *World) SetCaseTotal(n int) { w.caseTotal = n }
 func (w *World) Mix(s string)     { w.mix(s) }
 func (w *World) SetMaxSteps(n int) { w.maxSteps = n }
 
@@ -715,13 +719,14 @@ type RunResult struct {
 	Nontrivial bool
 	TraceHash  uint64
 	Case       string
+	CaseTotal  int
 }
 
 func (w *World) result() *RunResult {
 	r := &RunResult{
 		Tape: append([]uint32(nil), w.Tape.Recorded()...), Trace: w.trace, Fingerprint: w.fp, Steps: w.Step(),
 		Switches: w.switches, Overlaps: w.overlaps, Faults: map[string]int{}, Truncated: w.truncated,
-		SimTime: time.Since(w.startTime), Hits: map[string]int64{}, Case: w.caseKey,
+		SimTime: time.Since(w.startTime), Hits: map[string]int64{}, Case: w.caseKey, CaseTotal: w.caseTotal,
 	}
 	for i := 0; i < int(w.npoints); i++ {
 		if f, ok := strings.CutPrefix(w.pointNames[i], "fault:"); ok {
